@@ -1,7 +1,200 @@
+import AuModel.Zero
 import Driver.Util
 open Au
 
-def dispatchC19 : List String → Option String
+/-! Driver commands for C19 (AuModel.Zero).  All requests start with the token `c19`.
+
+Value syntax: integers in decimal; floats `nan`, `inf`, `-inf`, or `<sign>,<m>,<e>` with sign `+`/`-`
+meaning `±m·2^e`.  Values that an object of the rep cannot hold are rejected with `bad-op`. -/
+
+namespace C19Cmd
+open Au.Zero
+
+def fvalStr : FVal → String
+  | .nan => "nan"
+  | .inf s => if s then "-inf" else "inf"
+  | .fin s m e => s!"{if s then "-" else "+"},{m},{e}"
+
+def valStr : Val → String
+  | .int _ v => toString v
+  | .flt _ x => fvalStr x
+
+def typedValStr (v : Val) : String := s!"{v.rep.name}:{valStr v}"
+
+def parseFVal? (s : String) : Option FVal :=
+  if s == "nan" then some .nan
+  else if s == "inf" then some (.inf false)
+  else if s == "-inf" then some (.inf true)
+  else
+    match s.splitOn "," with
+    | [sg, ms, es] =>
+      match (if sg == "+" then some false else if sg == "-" then some true else none),
+            ms.toNat?, es.toInt? with
+      | some neg, some m, some e => some (.fin neg m e)
+      | _, _, _ => none
+    | _ => none
+
+/-- Parse a value of rep `r`; only values an object of that rep can hold. -/
+def parseVal? (r : Rep) (s : String) : Option Val :=
+  match r with
+  | .int t =>
+    match s.toInt? with
+    | some v => if decide (Val.int t v).wf then some (.int t v) else none
+    | none => none
+  | .flt f =>
+    match parseFVal? s with
+    | some x => if decide (Val.flt f x).wf then some (.flt f x) else none
+    | none => none
+
+def rejectStr : Reject → String
+  | .deleted => "deleted" | .noMatch => "nomatch" | .ambiguous => "ambiguous"
+
+def valueStr : Value → String
+  | .zero => "zero"
+  | .bool b => s!"bool {b01 b}"
+  | .arith v => s!"arith {typedValStr v}"
+  | .duration n d c => s!"dur {n}/{d} {typedValStr c}"
+  | .qty q => s!"qty u={q.unit} {typedValStr q.val}"
+  | .point p => s!"pt u={p.unit} {typedValStr p.val}"
+
+def outcomeStr : Outcome → String
+  | .ok v => "ok " ++ valueStr v
+  | .ub _ => "ub"
+  | .hard r => "hard " ++ rejectStr r
+
+/-- compact form used inside `eval` / `pair` answers (no spaces) -/
+def outcomeTok : Outcome → String
+  | .ok (.qty q) => s!"u{q.unit}:{typedValStr q.val}"
+  | .ok (.bool b) => b01 b
+  | .ok v => (valueStr v).replace " " ":"
+  | .ub _ => "ub"
+  | .hard r => "hard:" ++ rejectStr r
+
+def parseTy? : List String → Option Ty
+  | ["zero"] => some .zero
+  | ["arith", r] => (Rep.ofName? r).map .arith
+  | ["dur", r, n, d] =>
+    match Rep.ofName? r, n.toNat?, d.toNat? with
+    | some r, some n, some d => if n = 0 || d = 0 then none else some (.duration r n d)
+    | _, _, _ => none
+  | ["qty", u, r] =>
+    match u.toNat?, Rep.ofName? r with
+    | some u, some r => some (.qty u r)
+    | _, _ => none
+  | ["point", u, r] =>
+    match u.toNat?, Rep.ofName? r with
+    | some u, some r => some (.point u r)
+    | _, _ => none
   | _ => none
 
-/-! Driver commands for C19. -/
+/-- operand syntax: `zero`, `qty:<u>:<rep>:<val>`, `pt:<u>:<rep>:<val>` -/
+def parseOperand? (s : String) : Option Value :=
+  if s == "zero" then some .zero else
+  match s.splitOn ":" with
+  | [k, u, r, v] =>
+    match u.toNat?, Rep.ofName? r with
+    | some u, some r =>
+      match parseVal? r v with
+      | some v =>
+        if k == "qty" then some (.qty ⟨u, v⟩)
+        else if k == "pt" then some (.point ⟨u, v⟩)
+        else none
+      | none => none
+    | _, _ => none
+  | _ => none
+
+def parseBinOp? (s : String) : Option BinOp :=
+  if s == "add" then some (.ar .add)
+  else if s == "sub" then some (.ar .sub)
+  else (CmpOp.ofName? s).map .cmp
+
+def bits (f : CmpOp → Outcome) : String :=
+  String.join (CmpOp.all.map (fun op => outcomeTok (f op)))
+
+def cmdConv (args : List String) : String :=
+  match parseTy? args with
+  | some t => outcomeStr (convertZero t)
+  | none => "bad-op"
+
+def cmdSite (args : List String) : String :=
+  match args with
+  | s :: rest =>
+    match Site.ofName? s, parseTy? rest with
+    | some s, some t => outcomeStr (atSite s t)
+    | _, _ => "bad-op"
+  | _ => "bad-op"
+
+def cmdBin (args : List String) : String :=
+  match args with
+  | [o, a, b] =>
+    match parseBinOp? o, parseOperand? a, parseOperand? b with
+    | some o, some a, some b => outcomeStr (binop o a b)
+    | _, _, _ => "bad-op"
+  | _ => "bad-op"
+
+/-- Everything C19 observes about one quantity `q = Quantity<u, rep>(val)`. -/
+def cmdEval (args : List String) : String :=
+  match args with
+  | [u, r, v] =>
+    match u.toNat?, Rep.ofName? r with
+    | some u, some r =>
+      match parseVal? r v with
+      | some v =>
+        let q : Value := .qty ⟨u, v⟩
+        let init := match convertZero (.qty u r) with
+          | .ok (.qty z) => typedValStr z.inOwnUnit
+          | o => outcomeTok o
+        s!"qz={bits (fun op => binop (.cmp op) q .zero)} zq={bits (fun op => binop (.cmp op) .zero q)} " ++
+        s!"add={outcomeTok (binop (.ar .add) q .zero)} sub={outcomeTok (binop (.ar .sub) q .zero)} " ++
+        s!"zadd={outcomeTok (binop (.ar .add) .zero q)} init={init}"
+      | none => "bad-op"
+    | _, _ => "bad-op"
+  | _ => "bad-op"
+
+/-- The same-type friends on two arbitrary quantities of one type (validates the model of the
+friends beyond the ZERO column). -/
+def cmdPair (args : List String) : String :=
+  match args with
+  | [u, r, a, b] =>
+    match u.toNat?, Rep.ofName? r with
+    | some u, some r =>
+      match parseVal? r a, parseVal? r b with
+      | some a, some b =>
+        let qa : Value := .qty ⟨u, a⟩
+        let qb : Value := .qty ⟨u, b⟩
+        s!"cmp={bits (fun op => binop (.cmp op) qa qb)} add={outcomeTok (binop (.ar .add) qa qb)} " ++
+        s!"sub={outcomeTok (binop (.ar .sub) qa qb)}"
+      | _, _ => "bad-op"
+    | _, _ => "bad-op"
+  | _ => "bad-op"
+
+def classBits (c : SignClass) : String :=
+  String.join (CmpOp.all.map (fun op => b01 (c.cmp0 op))) ++ "/" ++
+  String.join (CmpOp.all.map (fun op => b01 (c.cmp0' op)))
+
+/-- Certificate for the exhaustive sweeps: the twelve comparisons as a function of the sign class
+(proved to describe `binop` pointwise: `Au.C19_compare`, `Au.C19_compare_symm`), and the rep of
+`q ± ZERO` (`Au.C19_add_sub`). -/
+def cmdCert (args : List String) : String :=
+  match args with
+  | [r] =>
+    match Rep.ofName? r with
+    | some r =>
+      let sum := match r with
+        | .int t => (Rep.int t.promote).name
+        | .flt f => (Rep.flt f).name
+      s!"neg={classBits .neg} zero={classBits .zero} pos={classBits .pos} nan={classBits .nan} " ++
+      s!"sumrep={sum} zero_val={valStr (lit0 r)}"
+    | none => "bad-op"
+  | _ => "bad-op"
+
+end C19Cmd
+
+def dispatchC19 : List String → Option String
+  | "c19" :: "conv" :: args => some (C19Cmd.cmdConv args)
+  | "c19" :: "site" :: args => some (C19Cmd.cmdSite args)
+  | "c19" :: "bin" :: args => some (C19Cmd.cmdBin args)
+  | "c19" :: "eval" :: args => some (C19Cmd.cmdEval args)
+  | "c19" :: "pair" :: args => some (C19Cmd.cmdPair args)
+  | "c19" :: "cert" :: args => some (C19Cmd.cmdCert args)
+  | _ => none
